@@ -268,7 +268,7 @@ def gen_spec(seed: int, config: str | None = None) -> dict:
     knobs = {"read_chunk": None, "read_random": False, "consumer_await": bug.random() < 0.5,
              "write_buffer": bug.choice([None, None, None, 16, 64, 512])}
     if config == "faults":
-        kinds = [k for k in ("short_write", "torn_write", "short_read", "read_error", "dup_append", "corrupt") if bug.random() < 0.5]
+        kinds = [k for k in ("short_write", "torn_write", "short_read", "read_error", "dup_append", "corrupt", "foreign_line") if bug.random() < 0.5]
         all_sends = [(nm, i, s) for nm, ss in sorted(sends_by_node.items()) for i, s in enumerate(ss)]
         if "short_write" in kinds:
             for nm, i, s in all_sends:
@@ -288,6 +288,9 @@ def gen_spec(seed: int, config: str | None = None) -> dict:
                 faults.append({"kind": "read_error", "node": rng.choice(readers), "nth_read": rng.choice([0, 1, 2, 3, 5, 8]), "errno": rng.choice(["EIO", "EINTR_LIKE"])})
         if "dup_append" in kinds and all_sends:
             faults.append({"kind": "dup_append", "serial": rng.choice(all_sends)[2]})
+        if "foreign_line" in kinds and all_sends:
+            for _ in range(rng.choice([1, 1, 2])):
+                faults.append({"kind": "foreign_line", "serial": rng.choice(all_sends)[2], "line": rng.randrange(64)})
         if "corrupt" in kinds and all_sends:
             faults.append({"kind": "corrupt", "serial": rng.choice(all_sends)[2], "at": rng.randrange(1 << 16), "xor": rng.choice([1, 2, 0x20, 0x80, 0xFF])})
     sizes = [len(json.dumps(op["data"])) for op in send_ops({"nodes": nodes})]
@@ -984,12 +987,16 @@ class NodeRunner:
                 sim.probe("final_drain_delivered")
 
 
+FOREIGN_LINES = [b"\n", b"   \n", b"\r\n", b'{"a": 1}\n', b"null\n", b"[]\n", b'"text"\n', b"# comment\n", b'{"hash":"0000","data":{"@":"Packet"}}\n',
+                 b'{"hash":"zz"}\n', b"\xef\xbb\xbf\n", b"\xff\xfe\n", b"\x00\x00\x00\n", b'{"hash":"0000","data":\n']
+
+
 class Gremlin:
-    """Performs the dup_append / corrupt faults on the real file, once their target record is complete."""
+    """Performs the dup_append / corrupt / foreign_line faults on the real file, once their target record is complete."""
 
     def __init__(self, sim, spec, hist, path, writers_done):
         self.sim, self.spec, self.hist, self.path, self.writers_done = sim, spec, hist, path, writers_done
-        self.todo = [f for f in spec["faults"] if f["kind"] in ("dup_append", "corrupt")]
+        self.todo = [f for f in spec["faults"] if f["kind"] in ("dup_append", "corrupt", "foreign_line")]
         self.done = not self.todo
         self.corrupted = {}  # serial -> (offset, verifies)
         self.dups = {}
@@ -1006,6 +1013,17 @@ class Gremlin:
                     pending.remove(f)
                     progressed = True
                     if not rec["acked"] or rec["line"] is None:
+                        continue
+                    if f["kind"] == "foreign_line":
+                        # something that is neither a packet nor a piece of one: another tool logged into the file, an editor
+                        # added a blank line, a Windows program wrote its line ends
+                        fd = os.open(self.path, os.O_WRONLY | os.O_APPEND)
+                        try:
+                            os.write(fd, FOREIGN_LINES[f["line"] % len(FOREIGN_LINES)])
+                        finally:
+                            os.close(fd)
+                        sim.fault("foreign_line")
+                        sim.log("gremlin-foreign", f["serial"], f["line"])
                         continue
                     if f["kind"] == "dup_append":
                         fd = os.open(self.path, os.O_WRONLY | os.O_APPEND)
